@@ -330,8 +330,21 @@ func c17Run(ctx *core.Ctx, idx int, dotu bool, steps int) core.Result {
 			if !walk(fid, dir) {
 				continue
 			}
+			tmode := os.FileMode(perm & 0o777)
+			if dotu && r.Intn(4) == 0 {
+				// 9P2000.u: the set-id bits of the new file travel in the permission word
+				if r.Intn(2) == 0 {
+					perm |= 0x00080000
+					tmode |= os.ModeSetuid
+					argc += "+setuid"
+				} else {
+					perm |= 0x00040000
+					tmode |= os.ModeSetgid
+					argc += "+setgid"
+				}
+			}
 			rep = rw.rpc(&wire.Msg{Type: wire.Tcreate, Fid: fid, Name: name, Perm: perm, Mode: mode})
-			f, err := os.OpenFile(filepath.Join(twin, dir, name), omodeFlags(mode)|os.O_CREATE, os.FileMode(perm&0o777))
+			f, err := os.OpenFile(filepath.Join(twin, dir, name), omodeFlags(mode)|os.O_CREATE, tmode)
 			if f != nil {
 				f.Close()
 			}
@@ -639,11 +652,24 @@ func c17Run(ctx *core.Ctx, idx int, dotu bool, steps int) core.Result {
 			}
 			st := noTouch()
 			st.Mode = perm
+			tmode := os.FileMode(perm)
+			if fi, _ := os.Stat(filepath.Join(twin, p)); dotu && fi != nil && r.Intn(4) == 0 {
+				// 9P2000.u: the new mode asks for a set-id bit (chmod u+s / g+s)
+				if fi.IsDir() || r.Intn(2) == 0 {
+					st.Mode |= 0x00040000
+					tmode |= os.ModeSetgid
+					argc += ";sets-setgid"
+				} else {
+					st.Mode |= 0x00080000
+					tmode |= os.ModeSetuid
+					argc += ";sets-setuid"
+				}
+			}
 			if fi, _ := os.Lstat(filepath.Join(twin, p)); fi != nil && fi.IsDir() {
 				st.Mode |= 0x80000000
 			}
 			rep = rw.rpc(&wire.Msg{Type: wire.Twstat, Fid: fid, Stat: st})
-			perr = os.Chmod(filepath.Join(twin, p), os.FileMode(perm))
+			perr = os.Chmod(filepath.Join(twin, p), tmode)
 		case 12: // mtime
 			f, ok := pick("file")
 			if !ok {
